@@ -456,8 +456,10 @@ def coq_mismatches(name, prelude, elem_type, terms, mism_fn, shard=400, timeout=
         flat = " ".join(out.split())
         if rc != 0 or "M = " not in flat:
             return i, None, out[-3000:]
-        body = flat.split("M = ", 1)[1].split(" : list nat")[0].strip()
-        idx = [int(t) for t in re.findall(r"\d+", body)] if body != "[]" else []
+        body = flat.split("M = ", 1)[1].split(" : list nat")[0].strip().replace("%nat", "")
+        if not re.fullmatch(r"\[\s*(\d+(\s*;\s*\d+)*)?\s*\]", body):
+            return i, None, "unexpected shape of the evaluated mismatch list: " + out[-1500:]
+        idx = [int(t) for t in re.findall(r"\d+", body)]
         return i, idx, None
 
     with ThreadPoolExecutor(max_workers=workers) as ex:
